@@ -312,7 +312,9 @@ def _gen_net(rnd, n_nodes, pool, max_types, depth, edge_density, alg_out_p, n_ed
             pre = prefix + k + '/'
             if sp.startswith(pre) and tp.startswith(pre) and rnd.random() < 0.7:
                 return place(sub, pre, s, t, w)
-        c['edges'].append([f"{sp[len(prefix):]}/{s[1]}/{s[2]}", f"{tp[len(prefix):]}/{t[1]}/{t[2]}", None, {'weight': w}])
+        # an edge of weight exactly 1.0 is sometimes declared without a weight attribute (the documented default)
+        attrs = {} if w == 1.0 and rnd.random() < 0.5 else {'weight': w}
+        c['edges'].append([f"{sp[len(prefix):]}/{s[1]}/{s[2]}", f"{tp[len(prefix):]}/{t[1]}/{t[2]}", None, attrs])
 
     for s, t, w in edges_abs:
         place(circ, '', s, t, w)
@@ -340,6 +342,8 @@ def features(spec):
         tgt_srcs.setdefault(t, []).append(s)
         if a.get('weight', 1.0) == 1.0:
             feats.add('weight_one')
+        if 'weight' not in a:
+            feats.add('weight_attribute_omitted')
         if abs(a.get('weight', 1.0)) < 1e-4:
             feats.add('weight_tiny')
         if et:
